@@ -11,7 +11,7 @@
 
    [pops (log s)] lists the dequeued items, NEWEST FIRST; in
    [ForallOrdPairs (fun b a => ...)] b is dequeued later than a. *)
-From RxVerif Require Import Base.Prelude Core.VTime Core.VTimeFacts.
+From RxVerif Require Import Base.Prelude Core.VTime Core.VTimeFacts Core.VTimeNested.
 From Coq Require Import Sorting.Sorted.
 
 (* the k-th dequeued item carries r_idx = k *)
@@ -116,6 +116,41 @@ Theorem C28_sleep_negative : forall s d, d < 0 ->
 Proof. exact sleep_negative_raises. Qed.
 Print Assumptions C28_sleep_negative.
 
+(* start() / advance_to() / advance_by() issued from INSIDE a running action (the model has no
+   command for it; harness/vt.py erases such calls when it prints a history, see Core/VTimeNested.v):
+   the loops invoke items only while the flag is set, nothing but stop() clears it, and with the
+   flag set the calls return at once (advance_to(t < clock) raises, C28_advance_to_past_raises). *)
+Theorem C28_nested_start_returns_at_once : forall c fuel s,
+  enabled s = true -> start c fuel s = Finished s.
+Proof. exact start_while_enabled. Qed.
+Print Assumptions C28_nested_start_returns_at_once.
+
+Theorem C28_nested_advance_returns_at_once : forall fuel s t,
+  enabled s = true -> clock s <= t -> advance_to fuel s t = Finished s.
+Proof. exact advance_to_while_enabled. Qed.
+Print Assumptions C28_nested_advance_returns_at_once.
+
+Theorem C28_loops_invoke_only_while_enabled : forall c fuel s sp t,
+  enabled s = false ->
+  start_loop c fuel s sp = Finished (set_enabled s false) /\ advance_loop fuel s t = finish_adv s t.
+Proof. exact loops_disabled. Qed.
+Print Assumptions C28_loops_invoke_only_while_enabled.
+
+Theorem C28_action_invoked_with_the_loop_flag : forall s it q' newclk bumped,
+  run_item s it q' newclk bumped =
+    (if negb (memb (i_id it) (cancelled s))
+     then invoke (invoke_state s it q' newclk bumped) (i_pay it)
+     else BOk (invoke_state s it q' newclk bumped))
+  /\ enabled (invoke_state s it q' newclk bumped) = enabled s.
+Proof. exact run_item_invokes_with_flag. Qed.
+Print Assumptions C28_action_invoked_with_the_loop_flag.
+
+Theorem C28_only_stop_clears_the_flag : forall b1 b2 s s1,
+  nostop b1 = true -> exec_body s b1 = BOk s1 ->
+  enabled s1 = enabled s /\ exec_body s (b1 ++ b2) = exec_body s1 b2.
+Proof. exact exec_body_prefix_enabled. Qed.
+Print Assumptions C28_only_stop_clears_the_flag.
+
 (* ---- non-vacuity --------------------------------------------------- *)
 
 (* [ex_h] (Core/VTimeFacts.v): three actions at one instant + one scheduled from inside + one cancelled *)
@@ -146,4 +181,22 @@ Example C28_advance_to_now_refuted :
   let s := state_of (run (Cfg Numeric false) 10 (init 7) [TDo (SSched Now 0 [])]) in
   map i_due (queue s) = [7] /\ clock s = 7 /\
   observe (run (Cfg Numeric false) 10 s [TAdvTo 7; TAdvBy 0]) = [OClock 7; OClock 7; OClock 7].
+Proof. vm_compute. repeat split; reflexivity. Qed.
+
+(* the hypotheses of the nested-call theorems hold in the state in which a loop invokes an action:
+   here action 0, whose body is [SSched Now 1 []] (no stop), in start() *)
+Example C28_witness_nested :
+  let s := set_enabled (state_of (run (Cfg Numeric false) 10 (init 0)
+             [TDo (SSched (Abs 3) 0 [SSched Now 1 []]); TDo (SSched (Abs 4) 2 [])])) true in
+  match queue s with
+  | it :: q' =>
+      let s0 := invoke_state s it q' 3 false in
+      enabled s0 = true /\ nostop [SSched Now 1 []] = true /\
+      match exec_body s0 [SSched Now 1 []] with
+      | BOk s1 => enabled s1 = true /\ start (Cfg Numeric false) 10 s1 = Finished s1 /\
+                  advance_to 10 s1 9 = Finished s1 /\ advance_to 10 s1 1 = Raised AOOR s1
+      | _ => False
+      end
+  | [] => False
+  end.
 Proof. vm_compute. repeat split; reflexivity. Qed.
